@@ -122,6 +122,42 @@ def binding_all_lists(max_params=3):
                              Asg("k", Int(200)), Asg("r", App(Id("f"), args)), Core("print", [Id("r")]), Id("r")])
 
 
+def spread_matrix(rng=None, sample4=60):
+    """Calls whose arguments are plain values or unpacked containers (guide: Packed / spread arguments `f xs...`): every
+    sequence of 1..3 arguments over {plain, () ..., (x,)..., (x, y)..., [x, y, z]...}, a sample of 4-argument calls, against a
+    variadic callee, a callee with a default and a rest parameter, and a generator."""
+    kinds = ["plain", "s0", "s1", "s2", "s3"]
+    seqs = [seq for n in (1, 2, 3) for seq in itertools.product(kinds, repeat=n)]
+    four = list(itertools.product(kinds, repeat=4))
+    if rng is not None:
+        seqs += rng.sample(four, sample4)
+    for seq in seqs:
+        for callee in ("var", "defrest", "gen"):
+            reset_ids()
+            k = [0]
+            def val():
+                k[0] += 1
+                return Int(k[0])
+            args = []
+            for a in seq:
+                if a == "plain":
+                    args.append(val())
+                elif a == "s3":
+                    args.append(Spread(List([val(), val(), val()])))
+                else:
+                    args.append(Spread(Tuple([val() for _ in range(int(a[1]))])))
+            if callee == "var":
+                fn = Fn([Param("xs", "var")], Block([Id("xs")]))
+                use = App(Id("f"), args)
+            elif callee == "defrest":
+                fn = Fn([Param("p"), Param("q", "def"), Param("rest", "var")], Block([Tuple([Id("p"), Id("q"), Id("rest")])]), defaults=[Str("dq")])
+                use = App(Id("f"), args)
+            else:
+                fn = Fn([Param("p", "def"), Param("rest", "var")], Block([Yield(Id("p")), Yield(Id("rest"))]), defaults=[Str("dp")], gen=True)
+                use = MCall(App(Id("f"), args), "to_tuple", [])
+            yield Block([Asg("f", fn), Try(Block([Asg("r", use), Core("print", [Id("r")])]), [("e", "", Block([Core("print", [Str("error")])]))]), Str("end")])
+
+
 # ---- B. closures ----------------------------------------------------------------------------------------
 class CallGen(gen_core.Gen):
     """Extends the core statement generator with function definitions, calls, closures and generators."""
